@@ -86,11 +86,14 @@ Step ==
      ELSE IF e.op = "faultrun" THEN
        \* C13: a whole run in which one I/O operation was made to fail (or none was reached):
        \* the failure was reported by some call, or nothing is missing from the sorted output; and whatever
-       \* happened (a Clear that failed half way included), after CleanUp the directory no longer exists.
+       \* happened (a Clear that failed half way included), after CleanUp the directory no longer exists, and a
+       \* drain to io.EOF with AutoClear set (failed Pulls on the way included) leaves no run file behind.
        /\ UNCHANGED <<mode, held, pos, len, ac, ok, s, insync, acl, drift>>
        /\ fails' = IF /\ e.injected => (e.reported # "" \/ e.complete)
                       /\ ~e.injected => (e.reported = "" /\ e.complete)
                      THEN (IF e.dirleft THEN Append(fails, <<l, "the temporary directory still exists after CleanUp">>)
+                           ELSE IF e.ac /\ e.drained /\ e.runsleft > 0
+                             THEN Append(fails, <<l, "run files remain in the temporary directory after a drain with AutoClear set">>)
                            ELSE IF e.nofile THEN Append(fails, <<l, "a writer was encoding or syncing a run that is not registered with the sorter (it could never be cleared away)">>)
                            ELSE fails)
                      ELSE Append(fails, <<l, "I/O failure hidden: no call reported it and values are missing">>)
